@@ -101,13 +101,13 @@ func (s *Stats) Merge(o *Stats) {
 
 // Explorer enumerates all executions of a scenario within its deviation bound.
 type Explorer struct {
-	Sc       *Scenario
-	Shard    int // this worker
-	Shards   int // number of workers (0/1: everything)
-	Deadline time.Time
-	MaxExec  int64
-	Stats    *Stats
-	stop     bool
+	Sc          *Scenario
+	Shard       int // this worker
+	Shards      int // number of workers (0/1: everything)
+	Deadline    time.Time
+	MaxExec     int64
+	Stats       *Stats
+	stop        bool
 	maxOutcomes int
 }
 
